@@ -7,6 +7,10 @@ Two independent stages, both driven by an explicit random.Random:
                    - writes compound statements whose body is made of simple statements on one line
                      (`if x: y = 1; z = 2`, `def f(): return 1`, `class C: pass`, `except E: pass`, ...)
                    - uses another indentation unit (1..8 spaces or a tab; fixed per text or chosen per block)
+                   - copies simple statements, and expressions that run over several lines, verbatim from the
+                     source text (so that multi-line string tokens - triple-quoted literals, literals
+                     concatenated over several lines inside brackets - survive and can be followed by
+                     `; next statement` on their last line; the stdlib unparser renders every string on one line)
                    - wraps expressions in redundant parentheses, and the name list of `from m import ...` and
                      the items of `with ... as ...` in their optional ones (which gives stage 2 brackets to
                      break lines in)
@@ -39,11 +43,13 @@ WRAPPABLE = (ast.Name, ast.Attribute, ast.Call, ast.BinOp, ast.BoolOp, ast.Compa
              ast.Subscript, ast.List, ast.Tuple, ast.Dict, ast.Set, ast.IfExp, ast.Lambda, ast.ListComp,
              ast.SetComp, ast.DictComp, ast.GeneratorExp)
 
+KEEPABLE = WRAPPABLE + (ast.JoinedStr,)
+
 INDENT_UNITS = [' ', '  ', '   ', '    ', '        ', '\t', '      ']
 _NOWRAP_PARENTS = tuple(getattr(ast, n) for n in ('pattern', 'type_param') if hasattr(ast, n))
 
 FEATURES = ('semicolon-joined', 'one-line-compound', 'indent-width', 'redundant-parens', 'bracket-newline',
-            'backslash-continuation', 'extra-spaces', 'removed-spaces', 'comment', 'blank-lines')
+            'backslash-continuation', 'extra-spaces', 'removed-spaces', 'comment', 'blank-lines', 'source-kept')
 
 
 def parse_quiet(text, filename='<layout>'):
@@ -76,15 +82,18 @@ def random_style(rng, only=None):
         'p_tail_comment': rng.choice([0.0, 0.05, 0.2]),
         'p_lines': rng.choice([0.0, 0.05, 0.2]),
         'p_name_comment': rng.choice([0.0, 0.0, 0.15]),
+        'p_keep_stmt': rng.choice([0.0, 0.0, 0.3, 0.8]),
+        'p_keep_expr': rng.choice([0.0, 0.5, 1.0]),
     }
     if only is not None:
         keep = set(only)
         gate = {'p_semi': 'semicolon-joined', 'p_inline': 'one-line-compound', 'p_paren': 'redundant-parens',
                 'p_stmt_parens': 'redundant-parens',
                 'p_nl': 'bracket-newline', 'p_bs': 'backslash-continuation', 'p_space': 'extra-spaces',
-                'p_strip': 'removed-spaces', 'p_tail_comment': 'comment', 'p_lines': 'blank-lines'}
+                'p_strip': 'removed-spaces', 'p_tail_comment': 'comment', 'p_lines': 'blank-lines',
+                'p_keep_stmt': 'source-kept', 'p_keep_expr': 'source-kept'}
         strong = {'p_semi': 0.7, 'p_inline': 1.0, 'p_paren': 0.12, 'p_stmt_parens': 0.8, 'p_nl': 0.4, 'p_bs': 0.2, 'p_space': 0.2,
-                  'p_strip': 0.4, 'p_tail_comment': 0.2, 'p_lines': 0.2}
+                  'p_strip': 0.4, 'p_tail_comment': 0.2, 'p_lines': 0.2, 'p_keep_stmt': 0.5, 'p_keep_expr': 1.0}
         for k, f in gate.items():
             st[k] = strong[k] if f in keep else 0.0
         if 'comment' in keep:
@@ -103,9 +112,10 @@ class LayoutUnparser(ast._Unparser):
     """ast._Unparser with randomised layout decisions.  Constructed without rng (as the base class does for
     the inside of f-strings) it behaves exactly like the base class."""
 
-    def __init__(self, rng=None, style=None, **kw):
+    def __init__(self, rng=None, style=None, source=None, **kw):
         super().__init__(**kw)
         self.rng = rng
+        self._src = source.split('\n') if (source is not None and rng is not None) else None
         self.style = style or {}
         self.applied = collections.Counter()
         self._units = []
@@ -166,16 +176,55 @@ class LayoutUnparser(ast._Unparser):
             else:
                 lead = None
             self._lead = lead
-            if i == 0 and doc is not None:
+            seg = None
+            if simple[i] and self._src is not None and rng.random() < self.style.get('p_keep_stmt', 0):
+                seg = self.segment(s)
+            if seg is not None:
+                # the statement as its author wrote it (multi-line string tokens, own line breaks, comments)
+                self.applied['source-kept-statement'] += 1
+                if '\n' in seg:
+                    self.applied['source-kept-multi-line'] += 1
+                self.fill(seg)
+            elif i == 0 and doc is not None:
                 self._write_docstring(doc)
             else:
                 self.traverse(s)
             self._lead = None
 
+    def segment(self, node):
+        """the source text of a node, verbatim (None when unknown)"""
+        src = self._src
+        l0, l1 = getattr(node, 'lineno', None), getattr(node, 'end_lineno', None)
+        if src is None or l0 is None or l1 is None or node.end_col_offset is None or l1 > len(src):
+            return None
+        c0, c1 = node.col_offset, node.end_col_offset
+        if l0 == l1:
+            seg = src[l0 - 1][c0:c1]
+        else:
+            seg = '\n'.join([src[l0 - 1][c0:]] + src[l0:l1 - 1] + [src[l1 - 1][:c1]])
+        return seg if seg.strip() else None
+
     def _write_docstring_and_traverse_body(self, node):
         if self.rng is None:
             return super()._write_docstring_and_traverse_body(node)
         self._body(node.body, self.get_raw_docstring(node))
+
+    def visit_AnnAssign(self, node):
+        if self.rng is None:
+            return super().visit_AnnAssign(node)
+        self.fill()
+        with self.delimit_if('(', ')', not node.simple and isinstance(node.target, ast.Name)):
+            # '(a).b: T = v' is not accepted as an annotation target
+            self._nowrap += 1
+            try:
+                self.traverse(node.target)
+            finally:
+                self._nowrap -= 1
+        self.write(': ')
+        self.traverse(node.annotation)
+        if node.value:
+            self.write(' = ')
+            self.traverse(node.value)
 
     # -- optional brackets of statements -----------------------------------------------------
     def visit_ImportFrom(self, node):
@@ -240,6 +289,18 @@ class LayoutUnparser(ast._Unparser):
                 return ast.NodeVisitor.visit(self, node)
             finally:
                 self._nowrap -= 1
+        if (self._src is not None and self._nowrap == 0 and isinstance(node, KEEPABLE)
+                and (getattr(node, 'end_lineno', None) or 0) > node.lineno
+                and isinstance(getattr(node, 'ctx', None) or ast.Load(), ast.Load)
+                and rng.random() < self.style.get('p_keep_expr', 0)):
+            seg = self.segment(node)
+            if seg is not None:
+                # an expression that runs over several lines in the source is written as it stands there
+                # (the unparser would put a triple-quoted / implicitly concatenated string on one line)
+                self.applied['source-kept-multi-line'] += 1
+                bare = isinstance(node, (ast.Constant, ast.JoinedStr)) and single_string_token(seg) and rng.random() < 0.7
+                self.write(seg if bare else '(' + seg + ')')
+                return
         if (self._nowrap == 0 and isinstance(node, WRAPPABLE)
                 and isinstance(getattr(node, 'ctx', None) or ast.Load(), ast.Load)
                 and rng.random() < self.style.get('p_paren', 0)):
@@ -251,9 +312,33 @@ class LayoutUnparser(ast._Unparser):
         return ast.NodeVisitor.visit(self, node)
 
 
-def unparse_layout(tree, rng, style):
-    """-> (text, Counter of applied features)"""
-    u = LayoutUnparser(rng, style)
+def single_string_token(seg):
+    """True iff the text is exactly one string token (one STRING, or one f-string from its start to its end)"""
+    try:
+        toks = [t for t in tokens_of(seg + '\n') if t.type not in _TRIVIA and t.type != tokenize.NEWLINE]
+    except (tokenize.TokenError, SyntaxError, IndentationError):
+        return False
+    if not toks:
+        return False
+    if len(toks) == 1:
+        return toks[0].type == tokenize.STRING
+    if toks[0].type != _FSTART or toks[-1].type != _FEND:
+        return False
+    depth = 0
+    for i, t in enumerate(toks):
+        if t.type == _FSTART:
+            depth += 1
+        elif t.type == _FEND:
+            depth -= 1
+            if depth == 0 and i != len(toks) - 1:
+                return False
+    return depth == 0
+
+
+def unparse_layout(tree, rng, style, source=None):
+    """-> (text, Counter of applied features); with `source` (the text the tree was parsed from) simple statements
+    and multi-line expressions may be copied from it verbatim"""
+    u = LayoutUnparser(rng, style, source)
     text = u.visit(tree)
     return text + '\n', u.applied
 
@@ -399,7 +484,7 @@ def relayout(text, tree, rng, only=None, base=None):
         base = 'unparse' if rng.random() < 0.7 else 'original'
     applied = collections.Counter()
     if base == 'unparse':
-        new, a = unparse_layout(tree, rng, style)
+        new, a = unparse_layout(tree, rng, style, text)
         applied.update(a)
         if rng.random() < 0.25 and only is None:
             return new, applied, base
